@@ -30,6 +30,15 @@ TEXT = {
  "C15": {"technique": "Lean 4 proof (dec∘enc = id per codec under explicit decidable domain predicates) + hook-level correspondence",
          "text": "Theorems: AHED, FHED, SHED (both directions), timestamps (both directions), fSIZ (minimal BE u128), xATR, fPRM round trips; chunk-type private-bit characterisation; the one non-inverse corner (fPRM names > 255 bytes) is proved as such and recorded as known finding C15-fprm-name-over-255. Tie: every codec driven through cfg(pna_verif) wrappers on generated and hostile payloads. CLI text codecs (ACE, xattr values, part names, chmod) are added as built.",
          "note": _TB},
+ "C01": {"technique": "Lean 4 proof (CBC/CTR writer partition independence, reader schedule independence, pipeline round trip for every lawful cipher and codec) + state-machine and end-to-end correspondence",
+         "text": "Theorems (all partitions, all schedules, all lengths): cbcWriterRun = CBC(pad(concat)) one block per inner write; CTR writer = XOR keystream of concat; cbcReadAll over ANY ciphertext and ANY positive schedule = reference decryption incl. error kind, completes, never panics; FlattenReader/Writer lossless; readData(buildData ws) = ws.flatten and readData(streamData ws) = ws.flatten for every BlockPerm.Lawful cipher and Compressor.Lawful codec, key, 16-byte IV. Tie: cipher-sm runs the repository's generic CBC/CTR/Flatten code with a toy cipher against the model call by call; roundtrip writes with the 5 writer kinds x codecs x ciphers x KDFs and reads back with varied buffer schedules. Metadata path via C15/C13 theorems. Full entry-list statement (C01_roundtrip over Archive) is assembled as archive-level lemmas land.",
+         "note": _TB + " AES/Camellia only through the permutation law, codecs only through the round-trip law, KDF as oracle."},
+ "C16": {"technique": "Lean 4 proof (decision logic of decrypt_reader/verify_password: error kinds, key-only dependence, no panic, right key reads) + password-pair sampling",
+         "text": "Theorems: no password ⇒ InvalidInput, no PHSF ⇒ InvalidData, unencrypted entries ignore the password, the result depends on the password only through the derived key, never a panic for any oracle answer, the writer's key always reads (C01 corollary); the false corner is proved (empty CTR+store reads under every key; known finding C16-empty-ctr-store). Tie: roundtrip family opens every entry with right / wrong / no password and compares outcome kinds with the model (oracle answers from primitive crates). 'Wrong password never yields the plaintext' is sampled (plaintexts ≥ 16 bytes), not proved.",
+         "note": _TB + " Cryptographic strength is outside any model here."},
+ "C08": {"technique": "Lean 4 proof (data-flow structure of the encrypting writers) + leakage/freshness sampling",
+         "text": "Theorems: CBC output depends on plaintext only through E (non-interference under an E that ignores its block), CTR output = plaintext XOR keystream(cipher,key,IV,pos), stored layout = IV ++ cipher output, PHSF = PHC record after hash.take(), one salt draw and one IV draw per encrypted context, never reused. Tie/sampling: roundtrip family scans every encrypted archive for the password, the independently re-derived key (raw/hex/base64), 8-byte windows of incompressible canaries, entry names in solid mode, PHC hash field; salts and IVs pairwise distinct over the run. Partial by nature: hiding and value-freshness are properties of AES/Camellia/ChaCha20.",
+         "note": _TB + " Level is proof of structure + sampling of the cryptographic part (DESIGN §7/C08, §10)."},
 }
 
 _PENDING = "not yet claimed at this commit: model/theorems for this property are still being built (see DESIGN.md §11 for the order of work); no other technique is substituted"
